@@ -139,11 +139,11 @@ Definition Link := LinkR true.
 
 Definition Docs (q : pos) (os : list obs) : Prop :=
   incl (final_events os) (doc_events SD) /\ incl (doc_events (p_d0 q ++ p_dc q)) (final_events os) /\
-  stops os = doc_stops (p_d0 q) /\ no_raise os = true.
+  rundocs os = doc_rundocs (p_d0 q) /\ no_raise os = true.
 
 Definition DocsAll (os : list obs) : Prop :=
   incl (final_events os) (doc_events SD) /\ incl (doc_events SD) (final_events os) /\
-  stops os = doc_stops SD /\ no_raise os = true.
+  rundocs os = doc_rundocs SD /\ no_raise os = true.
 
 (* a single-message plan that has not started is sent None (it was pushed with that response) *)
 Fixpoint new_none (fl : list fd) (vs : list val) : Prop :=
@@ -250,23 +250,23 @@ Proof. intros HI. inv_cases HI; try (apply HLk); assumption. Qed.
 
 (* observations that carry no document, no message, no failure *)
 Definition neutral (o : list obs) : Prop :=
-  final_events o = [] /\ stops o = [] /\ no_raise o = true /\ forall cur, last_msg cur o = cur.
+  final_events o = [] /\ rundocs o = [] /\ no_raise o = true /\ forall cur, last_msg cur o = cur.
 
 Lemma Docs_neutral q os o : neutral o -> Docs q os -> Docs q (os ++ o).
 Proof.
   intros (N1 & N2 & N3 & N4) (D1 & D2 & D3 & D4). unfold Docs.
-  rewrite final_events_app, stops_app, no_raise_app, N1, N2, N3, D4, !app_nil_r. auto.
+  rewrite final_events_app, rundocs_app, no_raise_app, N1, N2, N3, D4, !app_nil_r. auto.
 Qed.
 Lemma Docs_quiet q q' os o : p_d0 q' = p_d0 q -> p_dc q' = p_dc q ->
-  final_events o = [] -> stops o = [] -> no_raise o = true -> Docs q os -> Docs q' (os ++ o).
+  final_events o = [] -> rundocs o = [] -> no_raise o = true -> Docs q os -> Docs q' (os ++ o).
 Proof.
   intros E1 E2 N1 N2 N3 (D1 & D2 & D3 & D4). unfold Docs.
-  rewrite E1, E2, final_events_app, stops_app, no_raise_app, N1, N2, N3, D4, !app_nil_r. auto.
+  rewrite E1, E2, final_events_app, rundocs_app, no_raise_app, N1, N2, N3, D4, !app_nil_r. auto.
 Qed.
 Lemma DocsAll_neutral os o : neutral o -> DocsAll os -> DocsAll (os ++ o).
 Proof.
   intros (N1 & N2 & N3 & N4) (D1 & D2 & D3 & D4). unfold DocsAll.
-  rewrite final_events_app, stops_app, no_raise_app, N1, N2, N3, D4, !app_nil_r. auto.
+  rewrite final_events_app, rundocs_app, no_raise_app, N1, N2, N3, D4, !app_nil_r. auto.
 Qed.
 
 Lemma Inv_neutral s os o : neutral o -> Inv s os -> Inv s (os ++ o).
@@ -289,7 +289,7 @@ Proof.
   - eapply I_done; try eassumption. apply DocsAll_neutral; assumption.
 Qed.
 
-Lemma neutral_intro o : final_events o = [] -> stops o = [] -> no_raise o = true -> (forall cur, last_msg cur o = cur) -> neutral o.
+Lemma neutral_intro o : final_events o = [] -> rundocs o = [] -> no_raise o = true -> (forall cur, last_msg cur o = cur) -> neutral o.
 Proof. intros. repeat split; assumption. Qed.
 
 Lemma lsame_refl s : lsame s s.
@@ -329,7 +329,7 @@ Lemma neutral_app a b : neutral a -> neutral b -> neutral (a ++ b).
 Proof.
   intros (A1 & A2 & A3 & A4) (B1 & B2 & B3 & B4). apply neutral_intro.
   - rewrite final_events_app, A1, B1. reflexivity.
-  - rewrite stops_app, A2, B2. reflexivity.
+  - rewrite rundocs_app, A2, B2. reflexivity.
   - rewrite no_raise_app, A3, B3. reflexivity.
   - intros cur. rewrite last_msg_app, A4, B4. reflexivity.
 Qed.
@@ -398,7 +398,7 @@ Proof. congruence. Qed.
 
 Lemma pos_facts q : PosOK q ->
   wfa (p_a0 q) /\ wfa (p_acur q) /\ wfa (p_aend q) /\ run_rel (p_a0 q) (p_acur q) /\
-  a_next (p_acur q) = a_next (p_a0 q) /\ doc_stops (p_dc q) = [] /\ (p_c q <> [] -> a_fresh (p_acur q) = false) /\
+  a_next (p_acur q) = a_next (p_a0 q) /\ doc_rundocs (p_dc q) = [] /\ (p_c q <> [] -> a_fresh (p_acur q) = false) /\
   exists drest, arun (p_acur q) (p_infl q ++ pend q) = Some (afin, drest) /\ SD = p_d0 q ++ p_dc q ++ drest.
 Proof.
   intros (P1 & P2 & P3 & P4 & (dseg & P5) & P6 & P7 & P8).
@@ -648,7 +648,7 @@ Qed.
 (* the plan is exhausted *)
 Lemma PosOK_end q :
   PosOK q -> p_infl q = [] -> p_fl q = [] -> p_u q = [] ->
-  p_acur q = afin /\ SD = p_d0 q ++ p_dc q /\ doc_stops (p_dc q) = [].
+  p_acur q = afin /\ SD = p_d0 q ++ p_dc q /\ doc_rundocs (p_dc q) = [].
 Proof.
   intros HP Hin Hfl Hu. pose proof (pos_facts q HP) as (W0 & Wc & We & Hrr & Hn & Hds & Hfr & drest & Hrest & HSD).
   unfold pend in Hrest. rewrite Hin, Hfl, Hu in Hrest. cbn in Hrest. injection Hrest as Ha Hd. subst drest. rewrite !app_nil_r in HSD. auto.
@@ -657,25 +657,25 @@ Qed.
 (* ------------------------------------------------------------------ documents *)
 Lemma Docs_body d0 dc dm os o (q q' : pos) :
   p_d0 q = d0 -> p_dc q = dc -> p_d0 q' = d0 -> p_dc q' = dc ++ dm ->
-  Docs q os -> final_events o = doc_events dm -> stops o = [] -> no_raise o = true ->
+  Docs q os -> final_events o = doc_events dm -> rundocs o = [] -> no_raise o = true ->
   incl (doc_events dm) (doc_events SD) -> Docs q' (os ++ o).
 Proof.
   intros E1 E2 E3 E4 (D1 & D2 & D3 & D4) F1 F2 F3 Hi. unfold Docs. rewrite E1, E2 in *. rewrite E3, E4.
-  rewrite final_events_app, stops_app, no_raise_app, F1, F2, F3, D4, app_nil_r. repeat split; try assumption.
+  rewrite final_events_app, rundocs_app, no_raise_app, F1, F2, F3, D4, app_nil_r. repeat split; try assumption.
   - apply incl_app; assumption.
   - rewrite app_assoc, doc_events_app. apply incl_app; [apply incl_appl; exact D2 | apply incl_appr; apply incl_refl].
 Qed.
 
 Lemma Docs_head d0 dc dm os o (q q' : pos) :
-  p_d0 q = d0 -> p_dc q = dc -> p_d0 q' = d0 ++ dc ++ dm -> p_dc q' = [] -> doc_stops dc = [] ->
-  Docs q os -> final_events o = doc_events dm -> stops o = doc_stops dm -> no_raise o = true ->
+  p_d0 q = d0 -> p_dc q = dc -> p_d0 q' = d0 ++ dc ++ dm -> p_dc q' = [] -> doc_rundocs dc = [] ->
+  Docs q os -> final_events o = doc_events dm -> rundocs o = doc_rundocs dm -> no_raise o = true ->
   incl (doc_events dm) (doc_events SD) -> Docs q' (os ++ o).
 Proof.
   intros E1 E2 E3 E4 Hs (D1 & D2 & D3 & D4) F1 F2 F3 Hi. unfold Docs. rewrite E1, E2 in *. rewrite E3, E4.
-  rewrite final_events_app, stops_app, no_raise_app, F1, F2, F3, D3, D4, !app_nil_r. repeat split; try assumption.
+  rewrite final_events_app, rundocs_app, no_raise_app, F1, F2, F3, D3, D4, !app_nil_r. repeat split; try assumption.
   - apply incl_app; assumption.
   - rewrite app_assoc, doc_events_app. apply incl_app; [apply incl_appl; exact D2 | apply incl_appr; apply incl_refl].
-  - rewrite !doc_stops_app, Hs. reflexivity.
+  - rewrite !doc_rundocs_app, Hs. reflexivity.
 Qed.
 
 Lemma Docs_rewind os (q q' : pos) : p_d0 q' = p_d0 q -> p_dc q' = [] -> Docs q os -> Docs q' os.
@@ -689,12 +689,12 @@ Definition po_ok (po : list obs) : Prop := po = [] \/ exists i, po = [OPlanIn pi
 
 Lemma out_done po m o3 v' : po_ok po -> forallb devdoc o3 = true ->
   let o := ((([] ++ po) ++ [OMsg m] ++ o3 ++ [OResp (RVal v')]) ++ []) ++ [OTask WSleep0] in
-  final_events o = final_events o3 /\ stops o = stops o3 /\ no_raise o = true /\
+  final_events o = final_events o3 /\ rundocs o = rundocs o3 /\ no_raise o = true /\
   (forall cur, reads_ok rdm cur o = true -> forall d z, v' = VReading d z -> z = rdm m).
 Proof.
   intros Hpo Hq. cbv zeta.
   assert (Hnr : no_raise o3 = true) by (apply devdoc_no_raise; exact Hq).
-  rewrite !final_events_app, !stops_app, !no_raise_app, Hnr.
+  rewrite !final_events_app, !rundocs_app, !no_raise_app, Hnr.
   destruct Hpo as [-> | [i ->]]; cbn; rewrite !app_nil_r.
   all: repeat split.
   all: intros cur Hr d z ->; cbn in Hr.
@@ -704,11 +704,11 @@ Qed.
 
 Lemma out_susp po m o3 : po_ok po -> forallb devdoc o3 = true ->
   let o := ([] ++ po) ++ [OMsg m] ++ o3 ++ [OTask WFuture] in
-  final_events o = final_events o3 /\ stops o = stops o3 /\ no_raise o = true /\ (forall cur, last_msg cur o = Some m).
+  final_events o = final_events o3 /\ rundocs o = rundocs o3 /\ no_raise o = true /\ (forall cur, last_msg cur o = Some m).
 Proof.
   intros Hpo Hq. cbv zeta.
   assert (Hnr : no_raise o3 = true) by (apply devdoc_no_raise; exact Hq).
-  rewrite !final_events_app, !stops_app, !no_raise_app, Hnr.
+  rewrite !final_events_app, !rundocs_app, !no_raise_app, Hnr.
   destruct Hpo as [-> | [i ->]]; cbn; rewrite !app_nil_r; repeat split; intros cur;
     rewrite last_msg_app, (devdoc_last_msg _ Hq); reflexivity.
 Qed.
@@ -909,13 +909,13 @@ Qed.
 Lemma ctl_out_quiet (m : msg) o (r : val) tail :
   forallb devonly o = true -> (tail = [OTask WSleep0] \/ tail = [OTask WFuture]) ->
   let oo := ((([] ++ []) ++ [OMsg m] ++ ([] ++ o) ++ [OResp (RVal r)]) ++ []) ++ tail in
-  final_events oo = [] /\ stops oo = [] /\ no_raise oo = true.
+  final_events oo = [] /\ rundocs oo = [] /\ no_raise oo = true.
 Proof.
   intros Q Ht. cbv zeta. cbn [app]. rewrite !app_nil_r.
   destruct (devonly_final_events _ Q) as [F1 F2]. pose proof (devdoc_no_raise _ (devonly_devdoc _ Q)) as F3.
   rewrite <- !app_assoc. cbn [app].
   change (OMsg m :: o ++ OResp (RVal r) :: tail) with ([OMsg m] ++ o ++ OResp (RVal r) :: tail).
-  rewrite !final_events_app, !stops_app, !no_raise_app, F1, F2, F3.
+  rewrite !final_events_app, !rundocs_app, !no_raise_app, F1, F2, F3.
   destruct Ht as [-> | ->]; repeat split; reflexivity.
 Qed.
 
@@ -1053,7 +1053,7 @@ Proof.
       * unfold RE_PointsB.BR in L4. rewrite Ha, Hfin in L4. exact L4.
       * apply DocsAll_neutral; [apply neutral_intro; reflexivity|].
         destruct HD as (D1 & D2 & D3 & D4). unfold DocsAll. split; [exact D1|]. split; [rewrite HSD'; exact D2|].
-        split; [rewrite HSD', doc_stops_app, Hds', app_nil_r; exact D3 | exact D4].
+        split; [rewrite HSD', doc_rundocs_app, Hds', app_nil_r; exact D3 | exact D4].
     + cbn [PointSpec.follows] in P2. destruct (P2 v) as (p' & Hy & Hf').
       assert (Hk : bodym m = true \/ (is_head (mcmd m) = true /\ @nil fd = [] /\ @nil fd = [] /\ p_u q = m :: u')).
       { unfold pend in Hrest. rewrite Hin, Efl, Eu in Hrest. change (fmsgs (@nil fd)) with (@nil msg) in Hrest. cbn in Hrest.
@@ -1309,10 +1309,10 @@ Proof.
 Qed.
 
 (* the end of the task *)
-Lemma DocsAll_ext os o : final_events o = [] -> stops o = [] -> no_raise o = true -> DocsAll os -> DocsAll (os ++ o).
+Lemma DocsAll_ext os o : final_events o = [] -> rundocs o = [] -> no_raise o = true -> DocsAll os -> DocsAll (os ++ o).
 Proof.
   intros N1 N2 N3 (D1 & D2 & D3 & D4). unfold DocsAll.
-  rewrite final_events_app, stops_app, no_raise_app, N1, N2, N3, D4, !app_nil_r. auto.
+  rewrite final_events_app, rundocs_app, no_raise_app, N1, N2, N3, D4, !app_nil_r. auto.
 Qed.
 
 Lemma step_task_final (s : st) os :
